@@ -52,6 +52,7 @@ class Ctx:
         self.angvals = {}        # numeric angle atom name -> (s SReal, c SReal)
         self.sign = {}           # atom name -> 'pos' | 'nonneg'
         self.no_fork = False
+        self.decided = {}        # canonical comparison -> truth value decided on this path
         self.const_atoms = {'pi': _math.pi}   # atoms that denote a fixed real number -> its float value
         self.bounds = {}         # atom -> (lo, hi) Fractions or None
         self.poly_lower = {}     # polynomial (without constant term) -> lower bound from an assumption
@@ -580,14 +581,28 @@ class SBool:
             return repr(self.a)
         return f'({self.a!r} {self.k} {self.b!r})'
 
+    def _key(self):
+        if self.k == 'cmp':
+            op, x = self.a, self.b
+            # canonical: strict/non-strict pairs share a key with a polarity
+            pol = {'<': ('<', True), '>=': ('<', False), '>': ('>', True), '<=': ('>', False), '==': ('==', True), '!=': ('==', False)}[op]
+            return (pol[0], x.n, x.d), pol[1]
+        return None, None
+
     def __bool__(self):
         c = CTX
+        key, pol = self._key()
+        if key is not None and key in c.decided:
+            # the same condition was decided earlier on this path: same answer, no new decision
+            return c.decided[key] == pol
         zf = self.z3()
         if c.pos < len(c.decisions):
             d = c.decisions[c.pos]
             c.pos += 1
             c.pc.append((self if d else snot(self), zf if d else z3.Not(zf), _caller_label()))
             _record_bound(c.pc[-1][0])
+            if key is not None:
+                c.decided[key] = (d == pol)
             return d
         if c.no_fork:
             raise Unsupported('symbolic branch inside a no-fork region: %r' % self)
@@ -608,6 +623,8 @@ class SBool:
         c.pos += 1
         c.pc.append((self if d else snot(self), zf if d else z3.Not(zf), _caller_label()))
         _record_bound(c.pc[-1][0])
+        if key is not None:
+            c.decided[key] = (d == pol)
         return d
 
     def __and__(a, b):
